@@ -1,3 +1,3 @@
-CONSTANTS Prog <- RdResize ResetLocking = "release" EventUnlock = TRUE HandlerFetch = TRUE
+CONSTANTS Prog <- RdResize ResetLocking = "release" EventUnlock = TRUE HandlerFetch = TRUE Arm = 2 GapLocked = TRUE ResizeSameUnlocks = TRUE
 SPECIFICATION Spec
 INVARIANTS LocksetOK NoRace CallbackUnlocked NoSelfLock SnapshotAtomic ConsistentSet HolderOK
